@@ -16,6 +16,7 @@ From RV Require Import Model.Domain Model.InversionFrontier Proofs.C02_Inversion
 From RV Require Gen.GenTieBst Proofs.Tie_Bst Gen.GenTieAlias Proofs.Tie_Alias.
 From RV Require Import Proofs.C02_GenTie.
 From RV Require Import Model.FrontierDraw Model.InversionFrontierNd Proofs.C14_FrontierDraw Proofs.C02_InversionFrontierNd.
+From RV Require Import Model.InversionFrontierFactory Proofs.C02_InversionFrontierFactory.
 From RV Require Import Proofs.C02_FrontierEdge.
 Import ListNotations.
 Open Scope Q_scope.
@@ -329,7 +330,9 @@ Example C02_gen_alias_nonvacuous :
   = [0; 3; 2; 2; 2]%Z.
 Proof. vm_compute. reflexivity. Qed.
 
-(* the n-d (d >= 2) INVERSION sampler of the factory: PairingToZd over nested Szudzik (sznd_project / sznd_pair), Boundary(),
+(* the n-d INVERSION sampler with PairingToZd over (nested) SZUDZIK (sznd_project / sznd_pair), any d >= 2, Boundary().  This is the
+   factory's sampler for d = 2 ONLY: create_sampling_inversion_method takes Rosenberg-Strong for d >= 3 (audit 5a B11; the statement
+   for the factory's own choice in every d >= 2 is C02_inversion_frontier_factory / _factory_law below).  The
    the deque frnd = snd (dom_nd ..) and max_frontier_indices maxfnd = dom_maxf (dom_nd ..) of Model/Domain.v (C14), is_outside =
    outside the box.  Every index of the deque is an ADMISSIBLE index of the enumeration (the hypothesis of part (5) of
    C02_inversion_frontier_law, so far proved in 1-d only), the deque is not empty, and position c of the deque is the first or
@@ -379,6 +382,61 @@ Example C02_inversion_frontier_nd_nonvacuous :
           = [Some [1; 0]; Some [1; -2]; Some [-2; 2]; Some [-2; 2]; Some [-2; -2]]%Z
        /\ map (inv_uses_choice (sznd_project 2) (outsidend [5; 5]%Z 2) (maxfnd [5; 5]%Z 2) nd_ex_prob 3 st) [3 # 4; 7 # 8] = [false; true]).
 Proof. exact inversion_frontier_nd_nonvacuous. Qed.
+
+(* ---- wave 8 (audit 5a B11): the enumeration the factory REALLY picks ----
+   samplingfactory.py create_sampling_inversion_method: Szudzik iff model.dimension() == 2, RosenbergStrong otherwise:
+   fac_project d / fac_pair d of Model/InversionFrontierFactory.v; frfac / maxffac = the deque and max_frontier_indices Model/Domain.v
+   computes with that pairing and Boundary().  The argument of C02_inversion_frontier_nd is done once for ANY n-d pairing with the four
+   inversion facts C14 proves of both enumerations (Proofs/C02_InversionFrontierFactory.v, Section FrontierAnyPairing), instantiated
+   for Rosenberg-Strong (C14: rs_proj_pair_nd, rs_pair_proj_nd, rs_pairing_nonneg; frontier_draw_admissible is the lemma behind
+   C14_frontier_draw_rs_nd) and then case-split on d = 2: so the d = 3 INVERSION deque of the factory is covered by theorem.
+   Hypotheses as before: at least two axes, sizes > 0, origin index o (the code uses ONE origin index on every axis) not on the edge
+   of the last axis, 0 < o < last_size - 1 -- necessary: on an edge-origin last axis the deque holds the index of the origin. *)
+Theorem C02_inversion_frontier_factory : forall (all_sizes : list Z) (last_size o : Z),
+  all_sizes <> [] -> Forall (fun m => (0 < m)%Z) all_sizes -> (0 < o < last_size - 1)%Z ->
+  let sizes := all_sizes ++ [last_size] in let d := length sizes in
+  let proj := fac_project d in let fr := frfac sizes o in
+  Forall (fun i => In i (G proj (outsidend sizes o) (maxffac sizes o))) fr
+  /\ fr <> []
+  /\ (0 <= maxffac sizes o)%Z
+  /\ (forall c, (c < length fr)%nat -> let s := frontier_state proj fr c in
+        length s = d /\ s <> repeat 0%Z d /\ outsidend sizes o s = false /\ draw_on_frontier all_sizes last_size o nobound s).
+Proof. exact frontier_factory. Qed.
+
+Theorem C02_inversion_frontier_factory_law : forall (all_sizes : list Z) (last_size o : Z),
+  all_sizes <> [] -> Forall (fun m => (0 < m)%Z) all_sizes -> (0 < o < last_size - 1)%Z ->
+  let sizes := all_sizes ++ [last_size] in let d := length sizes in
+  forall (prob : list Z -> Q) (M : Z), (forall s, 0 <= prob s) -> (1 <= M)%Z ->
+  let proj := fac_project d in let outside := outsidend sizes o in let F := maxffac sizes o in let fr := frfac sizes o in
+  let segs := adm_segs' proj outside F prob in
+  forall st, reachable proj outside F prob M st -> forall u c, (c < length fr)%nat ->
+    exists s, snd (inv_step_f proj outside F prob M fr st u c) = Some s
+      /\ length s = d /\ s <> repeat 0%Z d /\ outside s = false
+      /\ (u <= total segs -> exists i, locate_r 0 segs u = Some i /\ In i (G proj outside F) /\ s = proj i
+                                       /\ len_of i segs == prob s)
+      /\ (total segs < u -> s = frontier_state proj fr c /\ draw_on_frontier all_sizes last_size o nobound s).
+Proof. exact inversion_frontier_factory_law. Qed.
+
+(* the Szudzik enumeration is NOT the factory's in d = 3 (they differ from index 1 on), it is in d = 2 *)
+Example C02_szudzik_is_not_the_factory_3d :
+  map (sznd_project 3) [0; 1; 2; 3]%Z <> map (fac_project 3) [0; 1; 2; 3]%Z /\ fac_project 3 = rsnd_project 3 /\ fac_project 2 = sznd_project 2.
+Proof. exact szudzik_is_not_the_factory_3d. Qed.
+
+(* non-vacuity on the factory's real 3-d deque (Rosenberg-Strong): a 3 x 3 x 4 grid, o = 1 -- 18 entries = first and last point of
+   each of the 9 lines along the last axis, 35 admissible indices = the 35 non-origin cells -- a 5 x 5 x 5 grid (50 entries), and a
+   history with _max_storage = 3 that takes the frontier draw twice *)
+Example C02_inversion_frontier_factory_nonvacuous :
+  length (frfac [3; 3; 4]%Z 1) = 18%nat
+  /\ map (fac_project 3) (frfac [3; 3; 4]%Z 1)
+     = [[1; 1; 2]; [1; 1; -1]; [0; 1; 2]; [0; 1; -1]; [-1; 1; 2]; [-1; 1; -1]; [1; 0; 2]; [1; 0; -1]; [0; 0; 2]; [0; 0; -1];
+        [-1; 0; 2]; [-1; 0; -1]; [1; -1; 2]; [1; -1; -1]; [0; -1; 2]; [0; -1; -1]; [-1; -1; 2]; [-1; -1; -1]]%Z
+  /\ length (G (fac_project 3) (outsidend [3; 3; 4]%Z 1) (maxffac [3; 3; 4]%Z 1)) = 35%nat
+  /\ length (frfac [5; 5; 5]%Z 2) = 50%nat
+  /\ (exists st, inv_init (fac_project 3) (outsidend [3; 3; 4]%Z 1) (maxffac [3; 3; 4]%Z 1) fac_ex_prob = Some st
+       /\ fst (inv_run_f (fac_project 3) (outsidend [3; 3; 4]%Z 1) (maxffac [3; 3; 4]%Z 1) fac_ex_prob 3 (frfac [3; 3; 4]%Z 1) st
+                 [(1 # 4, 0%nat); (7 # 8, 3%nat); (3 # 4, 5%nat); (4 # 5, 17%nat)])
+          = [Some [1; 0; 0]; Some [0; 1; -1]; Some [-1; 1; 2]; Some [-1; -1; -1]]%Z).
+Proof. exact inversion_frontier_factory_nonvacuous. Qed.
 
 (* ---- wave 7 (audit 4: B11, D1) ---- *)
 
@@ -538,6 +596,10 @@ Print Assumptions C02_gen_alias_nonvacuous.
 Print Assumptions C02_inversion_frontier_nd.
 Print Assumptions C02_inversion_frontier_nd_law.
 Print Assumptions C02_inversion_frontier_nd_nonvacuous.
+Print Assumptions C02_inversion_frontier_factory.
+Print Assumptions C02_inversion_frontier_factory_law.
+Print Assumptions C02_szudzik_is_not_the_factory_3d.
+Print Assumptions C02_inversion_frontier_factory_nonvacuous.
 Print Assumptions C02_inversion_frontier_1d_law.
 Print Assumptions C02_inversion_frontier_1d_edge_deque.
 Print Assumptions C02_inversion_frontier_edge_origin_refuted.
